@@ -4,7 +4,7 @@
    components every Lisp-level text goes through: the reader and format's control-string scanner,
    each as a model in which every index and slice is bounds-checked. *)
 From C02 Require Import Model Spec Proofs.
-From C09 Require Import Format FormatProofs Reader Stream.
+From C09 Require Import Format FormatProofs Reader Stream Progress.
 
 (* (1) the reader: for every table set accepted by table_ok (re-proved on the regenerated tables on
    every run of C02 and C09), every state a read can reach, every byte: the bounds-checked step is
@@ -84,6 +84,56 @@ Theorem C09_stream_when_saved_agrees : forall m src,
   block_end_p TsWhenSaved m src = block_end_p TsReset m src.
 Proof. exact block_end_p_when_saved. Qed.
 Print Assumptions C09_stream_when_saved_agrees.
+
+(* (11) the decimal count after # (reader field sharpNum; radix of #nR, rank of #nA; repo_fixes/C09-44): for EVERY
+   run of digits, of any length, the count the reader keeps is the number the digits denote when that is at
+   most array-rank-limit (1024), and otherwise some number in 1025..10249: never negative, never a small number
+   the digits do not denote.  Compared with the implementation on every run (the shards named sharp: #<run>R10 and
+   #<run>A() for runs of 1..25 digits around 2^31, 2^32, 2^63, 2^64) *)
+Theorem C09_sharp_count_exact_or_large : forall ds, ds <> [] -> forallb is_dig ds = true ->
+  (value ds <= 1024 -> sharp_num true ds = value ds)%Z /\ (1024 < value ds -> 1024 < sharp_num true ds <= 10249)%Z.
+Proof. exact sharp_num_exact_or_large. Qed.
+Print Assumptions C09_sharp_count_exact_or_large.
+
+(* (12) ... hence make([]int, rank) is never reached with a negative length, a rank the digits put above the
+   limit is a parse error whatever the length of the run, and #nR accepts exactly the radixes 2..36 as written *)
+Theorem C09_sharp_rank_no_fault : forall ds, ds <> [] -> forallb is_dig ds = true ->
+  rank_outcome true ds <> SFault /\ ((1024 < value ds)%Z -> rank_outcome true ds = SErr) /\
+  radix_outcome true ds = (if ((value ds <? 2) || (36 <? value ds))%Z then SErr else SVal (value ds)).
+Proof. intros ds H1 H2. split; [exact (rank_no_fault ds H1 H2)|split; [exact (rank_too_large_is_error ds H1 H2)|exact (radix_exact ds H1 H2)]]. Qed.
+Print Assumptions C09_sharp_rank_no_fault.
+
+(* (13) the unchanged accumulation in a 64-bit int is refuted: nineteen nines wrap to a negative rank that passes
+   the rank test and reaches make (the reported fault); the digits of 2^64 + 10 are read as the radix 10 *)
+Theorem C09_sharp_original_refuted :
+  rank_outcome false nines19 = SFault /\ radix_outcome false [1;8;4;4;6;7;4;4;0;7;3;7;0;9;5;5;1;6;2;6]%Z = SVal 10%Z.
+Proof. split; [exact (proj1 sharp_original_rank_refuted)|exact (proj1 sharp_original_radix_refuted)]. Qed.
+Print Assumptions C09_sharp_original_refuted.
+
+(* (14) an iteration directive without a limit (dirIter, with and without the at-sign; repo_fixes/C09-43): WHATEVER
+   a pass of the body does to the argument position - body is any function, so every combination of move
+   directives, conditionals and consuming directives is covered - the iteration ends within
+   (number of arguments - position + 1) passes: with the text, a Lisp error of the body, or the "consumes no
+   arguments" error ... *)
+Theorem C09_iteration_bounded : forall args body fuel pos first out,
+  (Z.to_nat (zlen args - pos) < fuel)%nat -> iter true args body pos first out fuel <> IFuel.
+Proof. exact iter_bounded. Qed.
+Print Assumptions C09_iteration_bounded.
+
+(* (15) ... because a pass that ends at or before the position it began at while arguments remain ends the
+   iteration, on whichever pass that happens (first or not) *)
+Theorem C09_iteration_no_progress_ends : forall args body pos first out f pos' o,
+  (pos < zlen args)%Z -> body pos = BOk pos' o -> (pos' <= pos)%Z -> (pos' < zlen args)%Z ->
+  iter true args body pos first out (S f) = IErr.
+Proof. exact iter_no_progress_ends. Qed.
+Print Assumptions C09_iteration_no_progress_ends.
+
+(* (16) the unchanged test (first pass only) is refuted: the body "show what remains, take the next argument as
+   a count, move back by it" over (0 0 3) does not end for ANY number of passes (the reported hang, in the
+   fragment compared with the implementation on every run: the shards named iter) *)
+Theorem C09_iteration_original_refuted : forall fuel, format_iter false w_ops w_args fuel = IFuel.
+Proof. exact iter_original_refuted. Qed.
+Print Assumptions C09_iteration_original_refuted.
 
 (* FULL STATEMENT of the property (not a theorem here): for every Lisp-level input - text, function
    application, control string - the outcome is a value or a Lisp condition.  For the ~770 built-ins
